@@ -387,8 +387,6 @@ def validateGenesis (g : Genesis) : Res Unit := do
   if g.pausedActions.any (fun a => !actionValid a) then (.err "genesis:action-id" : Res Unit) else pure ()
   if hasDup g.pausedActions then (.err "genesis:duplicate-action" : Res Unit) else pure ()
 
-def hasNul (s : String) : Bool := s.toList.any (· == Char.ofNat 0)
-
 /-- `Keeper.InitGenesis` on an empty store. Any component error is a panic. -/
 def initGenesis (g : Genesis) : Res OrbState := do
   let o : OrbState := { params := some g.params }
@@ -398,6 +396,8 @@ def initGenesis (g : Genesis) : Res OrbState := do
       | (some src, some dst, denom, inc, out) =>
         let dstId := ccidString dst.1 dst.2
         if hasNul src.2 || hasNul dstId then (.panic "InitGenesis:key-encoding" : Res OrbState)
+        -- the destination indexes are computed from the textual id on every Set
+        else if (parseCrossChainID dstId).isNone then .panic "InitGenesis:index"
         else pure { o with amounts := upsert amtLt o.amounts { srcProto := src.1, srcCp := src.2, dstId := dstId, denom := denom } (inc, out) }
       | _ => .panic "InitGenesis:nil-id") o
   let o ← g.counts.foldlM (fun (o : OrbState) c =>
